@@ -12,6 +12,7 @@ EXPLANATION = ('Index exclusivity and amounts are invariants over reachable pool
                'stores or returns it; (R04.3) the free-resource summary is updated together with the pools and only the allocator writes them; '
                '(R04.4) the allocation shown to the task is the one stored for it; (R16.1) admission and grant agree.')
 NOT_DECIDED = ['index exclusivity, <=100% per index, sums <= size, "exactly the requested amount" (invariants over pool states / numbers)']
+RELATED = {'C16': ['R16.2']}
 ASSUMPTIONS = []
 W = T + 'worker::'
 ALLOCATOR = W + 'resources::allocator::ResourceAllocator'
